@@ -302,7 +302,29 @@ pub fn load(image: &[u8], wrapper: Wrapper, rp: &ReaderPlan, limit: Option<u64>,
                 let f = std::fs::File::open(&path).expect("harness: cannot open temp file");
                 alloc::tracked(limit, None, || AsepriteFile::read(f))
             } else {
-                alloc::tracked(limit, None, || AsepriteFile::read_file(&path))
+                // the same file reached in three ways (chosen by the content length, so a replay
+                // takes the same one): its own path, a symbolic link, an open descriptor via procfs
+                match image.len() % 3 {
+                    1 => {
+                        let link = std::path::PathBuf::from(format!("{}.lnk", path.display()));
+                        let _ = std::fs::remove_file(&link);
+                        let made = std::os::unix::fs::symlink(&path, &link).is_ok();
+                        let target = if made { link.clone() } else { path.clone() };
+                        let r = alloc::tracked(limit, None, || AsepriteFile::read_file(&target));
+                        let _ = std::fs::remove_file(&link);
+                        r
+                    }
+                    2 => {
+                        use std::os::unix::io::AsRawFd;
+                        let keep = std::fs::File::open(&path).expect("harness: cannot open temp file");
+                        let via = std::path::PathBuf::from(format!("/proc/self/fd/{}", keep.as_raw_fd()));
+                        let target = if via.exists() { via } else { path.clone() };
+                        let r = alloc::tracked(limit, None, || AsepriteFile::read_file(&target));
+                        drop(keep);
+                        r
+                    }
+                    _ => alloc::tracked(limit, None, || AsepriteFile::read_file(&path)),
+                }
             };
             let _ = std::fs::remove_file(&path);
             r
